@@ -44,7 +44,10 @@ CONTEXTS = [
     ('before-at-names', 'a ', 'z \\p@q{y} w@x \\@r{s} \\fi \\end{comment} |v| t'),
     ('cmd-then-comment-then-group', 'p \\o', '{a} s'),
 ]
-LEADS = ['', 'w ', '\\c', '\\c[o]{m}', 'w\\%', 'see http://a.b/c', 'x=1&y']
+LEADS = ['', 'w ', '\\c', '\\c[o]{m}', 'w\\%', 'see http://a.b/c', 'x=1&y', '\\section', 'x \\label']
+# behind these the comment itself is taken as the missing mandatory argument and printed inside braces (C08's side
+# condition): the text does not round-trip there, everything else is judged
+BARE_LEADS = ('\\section', 'x \\label')
 DANGEROUS = ('{', '}', '[', ']', '$', '\\end', '\\begin', '\\item', '\\)', '\\]', '\\(', '\\[')
 _REF_CACHE = {}
 
@@ -87,7 +90,7 @@ def check_even(ctx, lead, k, payload, sub):
     if o[0] != 'ok':
         raise H.Violation('C10:payload-breaks-parse:%s' % o[1], case, 'with payload REF the context parses; with %r it gives %s' % (payload, o[1]))
     soup = o[1]
-    if str(soup) != src:
+    if str(soup) != src and lead not in BARE_LEADS:
         raise H.Violation('C10:roundtrip', case, 'serialises to %r' % str(soup)[:300])
     got = O.canon_tree(soup)
     want = subst(_REF_CACHE[key], '%REF', '%' + payload)
@@ -117,7 +120,7 @@ def check_odd(ctx, lead, k, sub):
         raise H.Violation('C10:escaped-percent:leaf', case, 'no leaf \\%% among %r' % (lv,))
     if len(soup.find_all('live')) != 1:
         raise H.Violation('C10:escaped-percent:not-live', case, 'the command after \\%% is not found')
-    if str(soup) != src:
+    if str(soup) != src and lead not in BARE_LEADS:
         raise H.Violation('C10:roundtrip', case, 'serialises to %r' % str(soup)[:300])
     return case
 
